@@ -122,3 +122,37 @@ func cidFromHash(hash hash.Hash) (cid.Cid, error) {
 
 	return cid.NewCidV1(uint64(multicodec.DagCbor), mh), nil
 }
+
+var _ io.Writer = (*ErrWriter)(nil)
+
+// ErrWriter wraps an io.Writer and remembers the first error it returned.
+// Some encoders (notably DAG-JSON) ignore the errors of the writer they are
+// given; checking Err() after encoding makes sure a failed write is reported.
+type ErrWriter struct {
+	w   io.Writer
+	err error
+}
+
+// NewErrWriter returns an ErrWriter wrapping w.
+func NewErrWriter(w io.Writer) *ErrWriter {
+	return &ErrWriter{w: w}
+}
+
+// Write implements io.Writer. After a first error, nothing more is written.
+func (w *ErrWriter) Write(p []byte) (int, error) {
+	if w.err != nil {
+		return 0, w.err
+	}
+
+	n, err := w.w.Write(p)
+	if err != nil {
+		w.err = err
+	}
+
+	return n, err
+}
+
+// Err returns the first error returned by the wrapped io.Writer, if any.
+func (w *ErrWriter) Err() error {
+	return w.err
+}
